@@ -23,7 +23,13 @@ Contract file format (line oriented):
   @loop K                 text inserted before the body of the K-th loop (1-based)
   @proof before|after ANCHOR   block inserted before/after the line(s) holding the
                           literal ANCHOR (whitespace-insensitive, must match once)
+  @proof before-each|after-each ANCHOR   the same at EVERY occurrence (at least one): "each
+                          statement of this shape owes this justification"
   @sig OLD => NEW         literal replacement inside the signature (e.g. `mut self`)
+  @closure |PARAMS| => |TYPED PARAMS| -> (NAME: T)
+                          the closure header |PARAMS| (must occur once in the body, after the
+                          rewrite rules) gets parameter types / a named result, and the lines
+                          that follow (requires / ensures clauses) are inserted before its body
 """
 import hashlib
 import importlib.util
@@ -52,6 +58,7 @@ class FnContract:
         self.loops = {}      # k -> text
         self.proofs = []     # (where, anchor, text)
         self.sigsubs = []    # (old, new)
+        self.closures = []   # (old header, new header, clauses text)
         self.decreases = None
         self.attrs = []
 
@@ -100,11 +107,13 @@ def parse_contracts(path):
         elif section == "proof":
             where, anchor = arg
             cur.proofs.append((where, anchor, text))
+        elif section == "closure":
+            cur.closures.append((arg[0], arg[1], text))
         buf = []
 
     for raw in open(path):
         ln = raw.rstrip("\n")
-        if ln.startswith("#") and section not in ("proof", "loop", "requires", "ensures"):
+        if ln.startswith("#") and section not in ("proof", "loop", "requires", "ensures", "closure"):
             continue
         if ln.startswith("@"):
             flush()
@@ -128,12 +137,16 @@ def parse_contracts(path):
                 if rest.strip() in ("end", "close"):
                     rest = rest.strip() + " <end-of-body>"
                 where, anchor = rest.split(None, 1)
-                assert where in ("before", "after", "end", "close"), where
+                assert where in ("before", "after", "end", "close", "before-each", "after-each"), where
                 section = "proof"
                 arg = (where, anchor.strip())
             elif tag == "sig":
                 old, new = rest.split("=>")
                 cur.sigsubs.append((old.strip(), new.strip()))
+            elif tag == "closure":
+                old, new = rest.split("=>", 1)
+                section = "closure"
+                arg = (old.strip(), new.strip())
             elif tag == "decreases":
                 cur.decreases = rest
             elif tag == "attr":
@@ -166,6 +179,19 @@ def _find_anchor(text, anchor):
     if norm.find(a, pos + 1) >= 0:
         raise Undecided("anchor ambiguous: %r" % anchor)
     return idx[pos], idx[pos + len(a) - 1] + 1
+
+
+def _find_all_anchors(text, anchor):
+    """Every (non-overlapping) occurrence of the literal anchor, ignoring whitespace."""
+    idx = [i for i, ch in enumerate(text) if not ch.isspace()]
+    norm = "".join(text[i] for i in idx)
+    a = _norm_ws(anchor)
+    out = []
+    pos = norm.find(a)
+    while pos >= 0:
+        out.append((idx[pos], idx[pos + len(a) - 1] + 1))
+        pos = norm.find(a, pos + len(a))
+    return out
 
 
 def _line_spans(text):
@@ -348,6 +374,13 @@ class Gen:
                     ins.append((loops[k - 1][1], k, text))
                 for pos, k, text in sorted(ins, reverse=True):
                     body = body[:pos] + "\n/*@LOOP %d*/\n" % k + text + "\n/*@ENDLOOP*/\n" + body[pos:]
+            for old, newhdr, text in ctr.closures:
+                sp = _find_anchor(body, old)
+                if sp is None:
+                    raise Undecided("%s: closure header not found (or not unique): %r" % (key, old))
+                body = body[:sp[0]] + newhdr + "\n/*@PROOF*/\n" + text + "\n/*@ENDPROOF*/\n" + body[sp[1]:]
+                self.fidelity.append(dict(rule="closure-contract", file=s.path, line=body_line, fn=key, before=old, after=newhdr,
+                                          trusted="nothing (types as in the callee's signature; the clauses are proof obligations at the call and assumptions in the closure body)"))
             body = self._insert_proofs(key, ctr, body, s.path, body_line)
         # emit body line by line with origin tracking
         self._emit_body(body, s.path, body_line, key)
@@ -362,7 +395,7 @@ class Gen:
         exact_norm = set()
         spans = {}
         for where, anchor, text in ctr.proofs:
-            if where in ("end", "close"):
+            if where in ("end", "close", "before-each", "after-each"):
                 continue
             sp = _find_anchor(body, anchor)
             spans[anchor] = sp
@@ -376,6 +409,19 @@ class Gen:
             if where == "close":
                 # right before the closing brace of the body (bodies without a tail expression)
                 ins.append((body.rstrip().rfind("}"), "\n" + text))
+                continue
+            if where in ("before-each", "after-each"):
+                hits = _find_all_anchors(body, anchor)
+                if not hits:
+                    raise Undecided("%s: anchor not found: %r" % (key, anchor))
+                for a, b in hits:
+                    if where == "before-each":
+                        p = body.rfind("\n", 0, a) + 1
+                        p = p or 1
+                    else:
+                        p = body.find("\n", b)
+                        p = len(body) if p < 0 else p + 1
+                    ins.append((p, text))
                 continue
             if where == "end":
                 # before the last non-empty line of the body (the tail expression)
@@ -489,7 +535,13 @@ class Gen:
     # -- driver ---------------------------------------------------------------
     def generate(self):
         u = self.unit
-        self.contracts = parse_contracts(os.path.join(self.udir, u["contracts"])) if u.get("contracts") else {}
+        self.contracts = {}
+        cfiles = u.get("contracts") or []
+        for cf in ([cfiles] if isinstance(cfiles, str) else cfiles):
+            for k, v in parse_contracts(os.path.join(self.udir, cf)).items():
+                if k in self.contracts:
+                    raise ValueError("duplicate contract for %s" % k)
+                self.contracts[k] = v
         self.used_contracts = set()
         self.requires_lines = []
         lp = os.path.join(self.udir, 'anchors.lock.json')
@@ -569,7 +621,7 @@ class Gen:
             used = set()
             for ln, o in zip(mk.split("\n"), self.linemap):
                 if o and o.get("file"):
-                    used.update(re.findall(r"(?<![\w:])([A-Z][A-Z0-9_]{2,})\b(?!\s*::|\s*\()", ln))
+                    used.update(re.findall(r"(?<![\w:])([A-Z][A-Z0-9_]{1,})\b(?!\s*::|\s*\()", ln))
             todo = sorted(used - defined)
             added = False
             for name in todo:
